@@ -48,6 +48,7 @@ NumChars(k) == IF k < 10 THEN <<Digits[k + 1]>> ELSE <<Digits[(k \div 10) + 1], 
 GoodPc(k) == <<"t", "p", "r", "/", "x">> \o NumChars(k) \o (IF k % 5 = 0 THEN <<"/">> ELSE <<>>)
 BadPcs == << <<>>, <<"/">>, <<"t","p","r","/",".",".","/","w">>, <<"t","p","r"," ","w">>, <<"/","t","p","r">>, <<"t","p","r","/","/","w">> >>
 
+Uq0P == UqPrep(Uq0)
 \* the machine: ms = [ttl, val, m] with m[p] = [path, pc, c]
 MAbsent(p) == p \notin DOMAIN ms.m
 MExpAt(s, en, g) == s.ttl >= 0 /\ g - en.c > s.ttl
@@ -167,7 +168,7 @@ CacheNext ==
        \E r \in MStep(ms, e, clock + 1) :
          LET t1 == clock + dur + 3
              ev == McMerge(e, [seq |-> Len(hist) + 1, t0 |-> clock, t1 |-> t1, res |-> r.res, obs |-> MObs(r.s, t1 + 1, t1, t1 + 3)])
-             v  == PcJudge(js, UU, Uq0, ev)
+             v  == PcJudge(js, UU, Uq0P, ev)
          IN /\ ms' = r.s /\ js' = v.st /\ bad' = (bad \/ ~Accepts(v)) /\ clock' = t1 + 3
             /\ hist' = Append(hist, ProgOp(e)) /\ cfg' = cfg
 JudgeAccepts == ~bad
@@ -221,7 +222,7 @@ HA == "level3.blizzard.com"     \* HTTPS-capable by name
 HB == "casc.wago.tools"         \* HTTPS-capable by name
 HC == "cdn.arctium.tools"       \* HTTP only by name
 HD == "eu.version.battle.net"
-CharTab == [x \in {HA, HB, HC, HD, "wow", "wowt", "wow_classic", "us", "", "tpr/wow", "tpr/wowt", "tpr/wow_classic", "tpr/us", "tpr/", "classic", "zz",
+CharTab == [x \in {HA, HB, HC, HD, "wow", "wowt", "wow_classic", "us", "ow", "", "tpr/wow", "tpr/wowt", "tpr/wow_classic", "tpr/us", "tpr/", "classic", "zz",
                    "x", "http://x/?maxhosts=4", "tpr/configs/data"} |->
   CASE x = HA -> <<"l","e","v","e","l","3",".","b","l","i","z","z","a","r","d",".","c","o","m">>
     [] x = HB -> <<"c","a","s","c",".","w","a","g","o",".","t","o","o","l","s">>
@@ -229,7 +230,7 @@ CharTab == [x \in {HA, HB, HC, HD, "wow", "wowt", "wow_classic", "us", "", "tpr/
     [] x = HD -> <<"e","u",".","v","e","r","s","i","o","n",".","b","a","t","t","l","e",".","n","e","t">>
     [] x = "wow" -> <<"w","o","w">> [] x = "wowt" -> <<"w","o","w","t">>
     [] x = "wow_classic" -> <<"w","o","w","_","c","l","a","s","s","i","c">>
-    [] x = "us" -> <<"u","s">> [] x = "" -> <<>> [] x = "zz" -> <<"z","z">> [] x = "x" -> <<"x">>
+    [] x = "us" -> <<"u","s">> [] x = "ow" -> <<"o","w">> [] x = "" -> <<>> [] x = "zz" -> <<"z","z">> [] x = "x" -> <<"x">>
     [] x = "classic" -> <<"c","l","a","s","s","i","c">>
     [] x = "tpr/wow" -> <<"t","p","r","/","w","o","w">> [] x = "tpr/wowt" -> <<"t","p","r","/","w","o","w","t">>
     [] x = "tpr/wow_classic" -> <<"t","p","r","/","w","o","w","_","c","l","a","s","s","i","c">>
@@ -257,7 +258,7 @@ BootFilters == {<<>>, <<"wow">>} \cup (IF Wide THEN {<<"wowt">>, <<"classic">>, 
 RowSeqs(n) == UNION {[1..k -> RowAlphabet] : k \in 0..n}
 BootCfgs ==
   {[hdr |-> 1, rows |-> rs, filter |-> f] : rs \in RowSeqs(D), f \in BootFilters}
-  \cup {[hdr |-> h, rows |-> rs, filter |-> f] : h \in 2..Len(Headers), rs \in RowSeqs(1), f \in BootFilters}
+  \cup {[hdr |-> h, rows |-> rs, filter |-> f] : h \in 1..Len(Headers), rs \in RowSeqs(1), f \in BootFilters \cup {<<"ow">>}}
 BootQueries ==
   <<[q |-> "stats"], [q |-> "validate"], [q |-> "primary"], [q |-> "getpath", p |-> "wow"], [q |-> "getpath", p |-> "wow_classic"],
     [q |-> "getpath", p |-> "w"], [q |-> "getpath", p |-> "zz"], [q |-> "runtime"], [q |-> "merge", fbk |-> "fallback"],
@@ -306,6 +307,7 @@ MkQueries(c) ==
     ELSE [q |-> "merge", fbk |-> "custom", fb |-> [servers |-> c.fb.s, paths |-> << <<"wow", "fb/wow">>, <<"zz", "fb/zz">> >>]],
     [q |-> "cfgupd", base |-> "high_availability"], [q |-> "cfgfrom", base |-> "blizzard_only"],
     [q |-> "cfgrm", base |-> "default", hosts |-> <<HA, "casc.wago.tools", "nobody.example.org">>],
+    [q |-> "cfgrm", base |-> "blizzard_only", hosts |-> <<HA>>],
     [q |-> "cfgrm", base |-> "community_only", hosts |-> <<"casc.wago.tools", "cdn.arctium.tools", "archive.wow.tools">>],
     [q |-> "cfgmerge", base |-> "community_only", servers |-> c.servers \o << <<HD, TRUE, 15>>, <<HD, FALSE, 5>> >>],
     [q |-> "cfgprio", base |-> "blizzard_only", upd |-> << <<HA, 35>>, <<"eu.cdn.blizzard.com", 0>>, <<"us.cdn.blizzard.com", -1>> >>]>>
